@@ -152,10 +152,28 @@ inductive Conforms (env : Env) (O : Oracle) : Field → PVal → PTree → Prop
       ElemsConform env O item xs es → Conforms env O (.array item) (.list xs) (.arr es)
   | map (item : Field) (kvs : List (Bytes × PVal)) (ms : PMembers) :
       MapConform env O item kvs ms → Conforms env O (.map item) (.map kvs) (.obj ms)
-  /-- an Any is `{"!type": typeName, "value": …}` -/
-  | any (pb : Bool) (v : PVal) (tn l1 l2 l3 : Bytes) (data : PTree) :
-      anyTypeName v = some tn →
-      Conforms env O (.any pb) v
+  /-- a j5 `Any` that holds `j5_json` is `{"!type": typeName, "value": <the stored j5_json>}`: the
+  value renders to exactly the stored bytes (whatever else the `Any` carries) -/
+  | anyJ5 (tn proto j5 : Bytes) (ik : InnerKind) (iroot : String) (inner : PVal)
+      (l1 l2 l3 : Bytes) (data : PTree) :
+      j5 ≠ [] → data.render = j5 →
+      Conforms env O (.any false) (.anyJ5 tn proto j5 ik iroot inner)
+        (.obj (.cons (ascii "!type") l1 (.str tn l2) (.cons (ascii "value") l3 data (.nil .closed))))
+  /-- a protobuf `Any` is `{"!type": name, "value": <the content>}`: `name` is the type URL without
+  `type.googleapis.com/`, and the value is the documented representation of the content as a
+  message of the type that name resolves to — an object … -/
+  | anyPbObj (val tn : Bytes) (iroot : String) (fs : Fields) (props : List PropDef)
+      (l1 l2 l3 : Bytes) (ms : PMembers) :
+      env.resolve tn = some iroot → env.find iroot = some (.object props) →
+      MembersConform env O fs props ms →
+      Conforms env O (.any true) (.anyPb (ascii "type.googleapis.com/" ++ tn) val .inn iroot (.msg fs))
+        (.obj (.cons (ascii "!type") l1 (.str tn l2) (.cons (ascii "value") l3 (.obj ms) (.nil .closed))))
+  /-- … or a oneof -/
+  | anyPbOne (val tn : Bytes) (iroot : String) (fs : Fields) (ops : List PropDef)
+      (l1 l2 l3 : Bytes) (data : PTree) :
+      env.resolve tn = some iroot → env.find iroot = some (.oneof ops) →
+      OneofConforms env O fs ops data →
+      Conforms env O (.any true) (.anyPb (ascii "type.googleapis.com/" ++ tn) val .inn iroot (.msg fs))
         (.obj (.cons (ascii "!type") l1 (.str tn l2) (.cons (ascii "value") l3 data (.nil .closed))))
 /-- a oneof over the message `fs`: `{}` when no member is set, else `{"!type": name, name: value}`
 — the type key plus exactly the key it names -/
